@@ -51,7 +51,7 @@ CHECKS["C16"] = dict(cat="other", engine="E2-crosshair+E3-concolic", tech="Cross
    text="Topology: for every depth-first parent vector with <=5 (thorough <=6) points CrossHair confirms over all paths, with all point types symbolic, that branches partition the points, are single-type parent/child chains with the reported type, and start exactly at branch points and type changes (both soma variants). Geometry: the real numpy code runs on symbolic coordinates and radii; z3 proves per explored path that branch lengths are the traced path lengths under the documented conventions and that compartment radii are the clipped linear interpolant. read_swc's pandas last mile is a concrete side-check.",
    note="structure (parent vectors, segment lengths for the radius part) enumerated; CrossHair verdicts other than 'Confirmed over all paths' are inconclusive; documented conventions are part of the oracle", ref="6 C16")
 CHECKS["C19"] = dict(cat="translation_validation", tech="enumerated editing histories; symbolic execution of traced integrate on the edited module vs a module rebuilt from its public tables, and history vs history+op+inverse; DAG equality; table predicates as concrete side-checks",
-   text="Histories over a 31-operation node alphabet x 3 views plus 9 synapse-level operations (connect of three synapse types, record / set / make_trainable on synapses) on an irregular cell and a small network are enumerated (structure); after each accepted history the traced simulation, with symbolic stimulus samples and trainables, must equal that of a module rebuilt from the displayed tables through the public construction API, tracing must not raise, and appending an operation plus its documented inverse must change neither tables nor simulation.",
+   text="Histories over a 34-operation node alphabet x 3 views plus 9 synapse-level operations (connect of three synapse types, record / set / make_trainable on synapses) on an irregular cell and a small network are enumerated (structure); after each accepted history the traced simulation, with symbolic stimulus samples and trainables, must equal that of a module rebuilt from the displayed tables through the public construction API, tracing must not raise, and appending an operation plus its documented inverse must change neither tables nor simulation.",
    note="histories bounded (<=2 exhaustive-filtered quick, sampled triples thorough, seeded random 3-5); the rebuild-from-tables reference is part of the trusted base; table-consistency predicates are concrete", ref="6 C19")
 CHECKS["C04"] = dict(cat="other", tech="SMT (z3, uninterpreted exp with congruence) equality of each traced rate/steady-state/time-constant/current expression with a literature transcription; tolerance queries in save_exp's clipped regime; DAG identity for renaming",
    text="For every expression of HH, Na, K, Km, CaL, CaT, Leak and IonotropicSynapse z3 proves, for all v in [-150,100], states in [0,1] and parameter ranges, that the traced implementation equals the transcribed published expression exactly where save_exp's clip is inactive and within 1e-6 relative where it is active; defaults are compared with a reference table and change_name is decided by DAG identity under the key bijection.",
